@@ -30,6 +30,7 @@ type Obligation struct {
 	Model   string   `json:"-"`
 	Output  string   `json:"-"`
 	Vacuity bool     `json:"vacuity,omitempty"` // cover/canary obligation: expected sat
+	Skipped bool     `json:"skipped,omitempty"` // not attempted (the function already had too many undecided obligations)
 	Path    []string `json:"-"`
 }
 
@@ -320,6 +321,18 @@ func (vc *FuncVC) leafHeaps(prefix string, t types.Type, out map[string]bool) {
 	}
 	switch u := t.Underlying().(type) {
 	case *types.Struct:
+		// ghost fields declared on the type are part of the object (an unspecified method may change the abstract state)
+		if n, ok := t.(*types.Named); ok {
+			for _, g := range vc.w.specs.Ghosts {
+				var pkg *types.Package
+				if g.Pkg != "" {
+					pkg = vc.w.typPkgs[g.Pkg]
+				}
+				if gt := vc.w.LookupType(g.Type, pkg); gt != nil && types.Identical(gt, n) {
+					out[prefix+"."+g.Field] = true
+				}
+			}
+		}
 		if n, ok := t.(*types.Named); ok && !vc.isLocalStruct(n) {
 			// external struct: only its scalar fields are modelled
 			for i := 0; i < u.NumFields(); i++ {
